@@ -1571,6 +1571,12 @@ impl Tree {
 		// the discarded timeline: drop everything cached under them.
 		self.core.inner.opts.block_cache.clear();
 
+		// Likewise the value log: its writer and file handles still point at the
+		// files that were just deleted and replaced.
+		if let Some(ref vlog) = self.core.inner.vlog {
+			vlog.reload_after_restore()?;
+		}
+
 		// Step 2: Reload in-memory state to match restored files
 
 		// Create a new LevelManifest from the current path
